@@ -180,23 +180,39 @@ def rule_r2(rep, repo):
                 rep.violation("R2.chunk-slice", "becke.BeckeWeights.__call__", "slice",
                               f"chunk `{norm(chunk_arg)}` does not run from the loop variable {v} to {v}+{step} starting at 0: "
                               f"points are skipped or evaluated twice", where)
-        elif isinstance(it, ast.Call) and norm(it.func) == "enumerate" and it.args and isinstance(it.args[0], ast.Call) \
-                and norm(it.args[0].func) in ("np.array_split", "np.split") and norm(it.args[0].args[0]) == pts \
+        elif isinstance(it, ast.Call) and norm(it.func) == "enumerate" and it.args and \
+                _array_split_of(f, it.args[0], pts) is not None \
                 and isinstance(var, ast.Tuple) and len(var.elts) == 2:
-            # idiom B
+            # idiom B (the split may be bound to a local name first)
             found = True
+            split_call = _array_split_of(f, it.args[0], pts)
             k, ch = (norm(e) for e in var.elts)
             if norm(chunk_arg) != ch:
                 raise AnalysisError("unrecognised idiom: the array_split chunk is not what is evaluated")
-            rep.ok("R2.chunk-slice", "BeckeWeights.__call__", where, f"{ch} in {norm(it.args[0])[:50]}")
-            m = None
-            import re
-            mm = re.search(r"\((\w+) - ([^()]+(?:\([^()]*\))?[^()]*)\)", txt) or re.search(r"(\w+) - (.+?)(?:,|\)|$)", txt)
-            off = mm.group(2).strip() if mm and mm.group(1) == indices else None
-            if off in (f"{k} * len({ch})", f"len({ch}) * {k}", f"{k} * {ch}.shape[0]", f"{ch}.shape[0] * {k}"):
+            rep.ok("R2.chunk-slice", "BeckeWeights.__call__", where, f"{ch} in {norm(split_call)[:50]}")
+            # the offset: right operand of `indices - <offset>` inside the table expression
+            off_node = next((n.right for n in ast.walk(pt) if isinstance(n, ast.BinOp) and isinstance(n.op, ast.Sub)
+                             and norm(n.left) == indices), None)
+            off = norm(off_node) if off_node is not None else None
+            uniform = None
+            if isinstance(off_node, ast.BinOp) and isinstance(off_node.op, ast.Mult):
+                for a_, b_ in ((off_node.left, off_node.right), (off_node.right, off_node.left)):
+                    if norm(a_) == k and not any(isinstance(x, ast.Name) and x.id == k for x in ast.walk(b_)):
+                        uniform = norm(b_)
+            equal_split = norm(split_call.func) == "np.split"   # np.split raises unless the chunks are equal
+            if uniform is not None and equal_split:
+                if uniform in (f"len({ch})", f"{ch}.shape[0]"):
+                    rep.ok("R2.chunk-table-shift", "BeckeWeights.__call__", where,
+                           f"{off}: np.split only makes equal chunks, so index x chunk length is the chunk start")
+                    start = off
+                else:
+                    raise AnalysisError(f"unrecognised idiom: stride `{uniform}` of equal np.split chunks")
+            elif uniform is not None:
+                # k * <one stride for all chunks>: np.array_split makes the first n % m chunks one point
+                # longer than the others, so no single stride gives the position of every chunk's first point
                 rep.violation("R2.chunk-table-shift", "becke.BeckeWeights.__call__", "offset",
                               f"segment table shifted by `{off}`: np.array_split makes the first n % m chunks one point "
-                              f"longer than the others, so index x length-of-this-chunk is not the position of the chunk's "
+                              f"longer than the others, so chunk index x `{uniform}` is not the position of the chunk's "
                               f"first point (wrong atom weights whenever the chunks are unequal)", where)
                 start = off
             else:
@@ -233,6 +249,19 @@ def rule_r2(rep, repo):
     if not found:
         raise AnalysisError("unrecognised idiom: BeckeWeights.__call__ has no recognised chunk loop "
                             "(range(0, n, size) slices or enumerate(np.array_split(points, m)))")
+
+
+def _array_split_of(f, e, pts):
+    """`np.array_split(points, m)` written in place or bound once to a local name."""
+    if isinstance(e, ast.Name):
+        dfn = [st.value for st in ast.walk(f.node) if isinstance(st, ast.Assign) and len(st.targets) == 1
+               and isinstance(st.targets[0], ast.Name) and st.targets[0].id == e.id]
+        if len(dfn) != 1:
+            return None
+        e = dfn[0]
+    if isinstance(e, ast.Call) and norm(e.func) in ("np.array_split", "np.split") and e.args and norm(e.args[0]) == pts:
+        return e
+    return None
 
 
 def rule_r3(rep, repo):
